@@ -222,9 +222,9 @@ func ruleDeadlineDirection(c *Ctx, r *R) {
 			if cal := call.Call.StaticCallee(); cal != nil && cal.Pkg != nil && cal.Pkg.Pkg.Path() == "time" {
 				var dl ssa.Value
 				switch {
-				case cal.Name() == "Until" && len(call.Call.Args) == 1:
+				case fname(cal) == "Until" && len(call.Call.Args) == 1:
 					dl = call.Call.Args[0]
-				case cal.Name() == "Sub" && len(call.Call.Args) == 2:
+				case fname(cal) == "Sub" && len(call.Call.Args) == 2:
 					if nc, ok := call.Call.Args[1].(*ssa.Call); ok {
 						if f := nc.Call.StaticCallee(); f != nil && f.Name() == "Now" {
 							dl = call.Call.Args[0]
@@ -275,7 +275,7 @@ func ruleDeadlineDirection(c *Ctx, r *R) {
 	okTimer := false
 	for _, dd := range deepInstrs(fn, 2) {
 		if call, ok := dd.in.(*ssa.Call); ok {
-			if cal := call.Call.StaticCallee(); cal != nil && cal.Name() == "NewTimer" && isParamOf(call.Call.Args[0], dd.calls, dP) {
+			if cal := call.Call.StaticCallee(); cal != nil && fname(cal) == "NewTimer" && isParamOf(call.Call.Args[0], dd.calls, dP) {
 				okTimer = true
 			}
 		}
@@ -541,7 +541,7 @@ func ruleTickGate(c *Ctx, r *R) {
 	stops := false
 	instrs(stop, func(b *ssa.BasicBlock, i int, in ssa.Instruction) {
 		if call, ok := in.(*ssa.Call); ok {
-			if cal := call.Call.StaticCallee(); cal != nil && cal.Name() == "Stop" && cal.Signature.Recv() != nil && isNamedType(cal.Signature.Recv().Type(), "time", "Timer") {
+			if cal := call.Call.StaticCallee(); cal != nil && fname(cal) == "Stop" && cal.Signature.Recv() != nil && isNamedType(cal.Signature.Recv().Type(), "time", "Timer") {
 				stops = true
 			}
 		}
@@ -728,7 +728,7 @@ func ruleValidationSiblings(c *Ctx, r *R) {
 				}
 			}
 		case *ssa.Call:
-			if cal := x.Call.StaticCallee(); cal != nil && cal.Name() == "AfterFunc" {
+			if cal := x.Call.StaticCallee(); cal != nil && fname(cal) == "AfterFunc" {
 				if dependsOnField(x.Call.Args[0], "d", 0) && dependsOnField(x.Call.Args[0], "jitter", 0) {
 					usesD = true
 				}
